@@ -21,6 +21,7 @@
 #![forbid(unsafe_code)]
 
 use crate::geometry::traits::coordinate::CoordinateScalar;
+use crate::topology::spaces::toroidal::wrap_into_period;
 use crate::topology::traits::topological_space::{
     GlobalTopology, TopologyKind, ToroidalConstructionMode,
 };
@@ -259,7 +260,7 @@ impl<const D: usize> GlobalTopologyModel<D> for ToroidalModel<D> {
             if !coord.is_finite() {
                 return Err(GlobalTopologyModelError::NonFiniteCoordinate { axis, value: coord });
             }
-            let wrapped = coord.rem_euclid(period);
+            let wrapped = wrap_into_period(coord, period);
             *coord_ref = <T as NumCast>::from(wrapped).ok_or(
                 GlobalTopologyModelError::ScalarConversion {
                     axis,
